@@ -62,7 +62,7 @@ def hash_case(spec):
     several units per transcript, circRNA, alternative splicing ...) is run in-process (PYTHONHASHSEED=0) and through the CLI
     under other hash seeds; the peptide SETS must be equal."""
     rng = random.Random(spec['seed'])
-    case = cv.build_case({'seed': spec['seed'], 'stratum': spec['stratum'], 'light': True,
+    case = cv.build_case({'seed': spec['seed'], 'stratum': spec['stratum'], 'light': spec.get('light', True),
                           'cfg': {'exception': None, 'min_nodes_to_collapse': 30, 'naa_to_collapse': 5}})
     if case is None:
         return {'skipped': True}
@@ -137,6 +137,28 @@ def hash_case(spec):
                 viol.append({'kind': 'layout-changes-output',
                              'mech': 'KF-NESTED' if nested else ('KF-CTX' if cvmon.ctx_attributable(case, base ^ got) else None),
                              'msg': f'{spec["stratum"]} layout {mode} with {len(lpaths)} files: missing {sorted(base - got)[:4]} extra {sorted(got - base)[:4]}'})
+        # ---------------- reference as index directory built with the case's OWN cleavage settings (any rule / limits)
+        if spec.get('index_ref'):
+            cfg = case.cfg
+            try:
+                idx = drivers.generate_index(wd, f'{wd}/index', rule=cfg['rule'], exception=cfg['exception'], miscleavage=cfg['miscleavage'],
+                                             min_mw=cfg['min_mw'], min_length=cfg['min_length'], max_length=cfg['max_length'])
+                a = cv.cv_namespace(case, wd, paths, out='idx.fasta')
+                a.index_dir = Path(idx)
+                a.genome_fasta = a.annotation_gtf = a.proteome_fasta = None
+                fa3 = drivers.call_variant(a)
+            except Exception as e:
+                if 'Failed to finish transcript' not in str(e):
+                    viol.append({'kind': 'index-reference-run-failed', 'msg': f'{spec["stratum"]} {cfg}: {type(e).__name__}: {str(e)[:200]}'})
+                fa3 = None
+            if fa3 is not None:
+                counters['rich_index_ref_runs'] = 1
+                got = {s for _, s in fa3}
+                if got != base:
+                    viol.append({'kind': 'index-reference-changes-output',
+                                 'mech': 'KF-CTX' if cvmon.ctx_attributable(case, base ^ got) else None,
+                                 'msg': f'{spec["stratum"]} rule={cfg["rule"]} limits=({cfg["miscleavage"]},{cfg["min_mw"]},{cfg["min_length"]},'
+                                        f'{cfg["max_length"]}): raw files vs index directory: missing {sorted(base - got)[:4]} extra {sorted(got - base)[:4]}'})
         return {'nontrivial': bool(base), 'feature': ('hash', spec['stratum'], tuple(spec['hashseeds'])), 'violations': viol,
                 'counters': counters, 'sample': {'stratum': spec['stratum'], 'hashseeds': spec['hashseeds'], 'base_peptides': len(base)}}
     finally:
@@ -302,6 +324,14 @@ def check(rep, tier, seed, specs=None, n_override=None):
         for i in range(nl):
             specs.append({'kind': 'hash', 'stratum': lstrata[i % len(lstrata)], 'hashseeds': [], 'layouts': 2,
                           'seed': common.hash64('c06r', 'fixed' if i < nl // 2 else seed, i)})
+        # raw reference vs index directory on inputs with free cleavage settings (all rules, limits up to --max-length 40, alt-translation
+        # flags); the paralog class makes variant peptides EQUAL canonical peptides of another gene, so the canonical pools of the two
+        # reference forms have to agree exactly
+        istrata = ['paralog', 'paralog', 'sec', 'multi', 'paralog', 'small', 'fusion_var', 'circ_var']
+        ni = 64 if quick else 3000
+        for i in range(ni):
+            specs.append({'kind': 'hash', 'stratum': istrata[i % len(istrata)], 'hashseeds': [], 'layouts': 0, 'light': False,
+                          'index_ref': True, 'seed': common.hash64('c06i', 'fixed' if i < ni // 2 else seed, i)})
     results, lost = common.shard_run('c06', specs, timeout_s=1800 if quick else 8 * 3600)
     rep.rule = ('inputs with 2-9 transcripts in annotation order of which a chosen subset is skipped by the dispatcher (only an intronic record) at '
                 'first / middle / last position; base = --threads 1, one file, raw reference, PYTHONHASHSEED=0 (in-process). Compared against it: '
@@ -310,6 +340,6 @@ def check(rep, tier, seed, specs=None, n_override=None):
                 'generateIndex directory. Hash seeds and file layouts (one record per file in shuffled order, halves of every file in reversed order) are additionally varied on cases of the callVariant engine (fusions with adjacent variants at '
                 'the breakpoint, several units per transcript, circRNA, alternative splicing). non-trivial = base output non-empty; distinct = (n_tx, n_skipped, thread counts, last/first skipped, ...).')
     rep.absorb(results, lost)
-    for k in ('thread_runs', 'layout_runs', 'index_ref_runs', 'hashseed_runs', 'rich_layout_runs'):
+    for k in ('thread_runs', 'layout_runs', 'index_ref_runs', 'hashseed_runs', 'rich_layout_runs', 'rich_index_ref_runs'):
         if not rep.counters.get(k):
             rep.inconclusive.append(f'monitor {k} had zero evaluations')
